@@ -349,13 +349,23 @@ def execute(case):
                     break
     # order differences (between orders of the same split) are their own class
     order_diff = set()
-    for S in results[1:]:
-        for t in set(S) | set(results[0]):
-            if S.get(t, 0) != results[0].get(t, 0):
-                order_diff.add(t)
-                sig = classify(t, "differs", part_of, "order")
-                problems.setdefault(sig, f"tuple {t!r} appears {results[0].get(t, 0)}x with order "
-                                         f"{case['orders'][0]['order']} but {S.get(t, 0)}x with another add order")
+    for ri, S in enumerate(results[1:], 1):
+        # same add order as an earlier run, different seeded thread interleaving -> "schedule"; else -> "order"
+        same_order_ref = next((j for j in range(ri) if run_orders[j] is run_orders[ri]), None)
+        for ref_i, what in ((same_order_ref, "schedule"), (0, "order")):
+            if ref_i is None or (what == "order" and run_orders[ri] is run_orders[0]):
+                continue
+            R = results[ref_i]
+            for t in set(S) | set(R):
+                if S.get(t, 0) != R.get(t, 0):
+                    order_diff.add(t)
+                    sig = classify(t, "differs", part_of, what)
+                    if what == "schedule":
+                        problems.setdefault(sig, f"tuple {t!r} appears {R.get(t, 0)}x and {S.get(t, 0)}x in two runs of the same "
+                                                 f"history (add order {run_orders[ri]['order']}) under different thread interleavings")
+                    else:
+                        problems.setdefault(sig, f"tuple {t!r} appears {R.get(t, 0)}x with order {run_orders[0]['order']} but "
+                                                 f"{S.get(t, 0)}x with order {run_orders[ri]['order']}")
     for oi, S in enumerate(results):
         for t in set(S) | set(S0):
             if t in order_diff:
